@@ -421,6 +421,7 @@ def toSOp : Sexp → Option SCmd
   | .list [.atom "child", r, k] => do pure (.steps [.child (← atomNat r) (← atomNat k)] false)
   | .list [.atom "childs", r, k] => do pure (.steps [.child (← atomNat r) (← atomNat k)] false)
   | .list [.atom "childi", r, k] => do pure (.steps [.child (← atomNat r) (← atomNat k)] false)
+  | .list [.atom "childn", r, k] => do pure (.steps [.child (← atomNat r) (← atomNat k)] false)
   | .list [.atom tag, r, .list [.atom "sets", i, .list (.atom "s" :: vs)]] => do
     -- slice assignment = the element assignments in order; a failing one keeps the earlier writes
     if tag != "mut" && tag != "bad" then none
@@ -668,6 +669,10 @@ def runCase (xs : List Sexp) : Option String :=
   | [.atom "type", t] => do pure (runType (← toTy t))
   | .atom "hist" :: t :: v :: ops => do pure (runHist (← toTy t) (← toVal v) (← ops.mapM toHOp))
   | .atom "histf" :: t :: v :: ops => do pure (runHist (← toTy t) (← toVal v) (← ops.mapM toHOp))
+  | .atom "histd" :: t :: ops => do
+    -- a history that starts from the DEFAULT value of the type
+    let t ← toTy t
+    pure (runHist t (Spec.zeroVal t) (← ops.mapM toHOp))
   | .atom "store" :: t :: v :: ops => do pure (runStore (← toTy t) (← toVal v) (← ops.mapM toSOp))
   | .atom "storel" :: t :: v :: ops => do pure (runStore (← toTy t) (← toVal v) (← ops.mapM toSOp) true)
   | .atom "partial" :: t :: v :: .list (.atom "pos" :: gs) :: ops => do
